@@ -1,2 +1,8 @@
-import Tumfl.Props.C11
-#print axioms Tumfl.Props.C11_roundtrip
+import Tumfl.Props.C05
+#print axioms Tumfl.Props.C05_model_reads
+#print axioms Tumfl.Props.C05_reference_reads
+#print axioms Tumfl.Props.C05_same_value
+#print axioms Tumfl.Props.C05_rejects_cleanly
+#print axioms Tumfl.Props.C05_terminates
+#print axioms Tumfl.Inst.escapeCodes_facts
+#print axioms Tumfl.Inst.escChar_in_table
